@@ -7,5 +7,6 @@ CONSTANTS
   DevStderrToFd1 = FALSE
   DevValidateLate = TRUE
   DevIndexCountsSkipped = FALSE
+  DevBreakEndsFileOnly = FALSE
 INVARIANT RejectBeforeIO
 CHECK_DEADLOCK FALSE
